@@ -8,6 +8,7 @@ scratch file under /verif/work/http-<pid>/ and kill the processes they started b
 import collections, json, os, random, re, shutil, sys, time
 from concurrent.futures import ThreadPoolExecutor
 from . import core, engine, gen, canon, httpkit as H, oracles as O
+from . import loader_corr
 
 PAR = min(12, max(2, (os.cpu_count() or 4) - 4))      # servers running side by side
 
@@ -181,6 +182,12 @@ def run_c16(tier, seed, replay=None, theorems=None, module=None):
     stats = collections.Counter()
     try:
         model = core.lean_phase(rep, module if ths else None, ths, thorough=(tier == "thorough"))
+        if replay and "#!loader" in open(replay).read():
+            text = open(replay).read()
+            loader_corr.run_leg(rep, model, seed, tier, "valid", replay_text=text[text.index("#!loader"):])
+            return rep.finish()
+        if not replay:
+            loader_corr.run_leg(rep, model, seed, tier, "valid")
         impl = core.harness_phase(rep, "core", "asan")
         server = core.harness_phase(rep, "server", "asan")
         cachegen = core.harness_phase(rep, "cachegen", "plain")
